@@ -668,3 +668,48 @@ func genTTL(r *vlib.R) string {
 	}
 	return fmt.Sprintf("ttl calc A=%s N=%s E=%s", mk('A', 3), mk('N', 4), mk('E', 2))
 }
+
+// authfilter check R=<type>,…      Resolver.filterAuthorityRecords: what survives of the authority section of an
+// "SOA beside NS" response before it is validated — the denial's own records, nothing else
+func execAuthFilter(f []string) vlib.Res {
+	var rrs []dns.RR
+	var want []int
+	for i, t := range splitList(kv(f)["R"]) {
+		typ := vlib.Atoi(t)
+		switch uint16(typ) {
+		case dns.TypeRRSIG:
+			rrs = append(rrs, &dns.RRSIG{Hdr: dns.RR_Header{Name: "zone.test.", Rrtype: dns.TypeRRSIG, Class: 1, Ttl: 60}, TypeCovered: dns.TypeSOA, Algorithm: 13, SignerName: "zone.test.", KeyTag: 1, Signature: "AAAA"})
+		case dns.TypeNSEC3:
+			rrs = append(rrs, &dns.NSEC3{Hdr: dns.RR_Header{Name: "abcd.zone.test.", Rrtype: dns.TypeNSEC3, Class: 1, Ttl: 60}, Hash: 1, HashLength: 20, NextDomain: "ABCD"})
+		default:
+			rrs = append(rrs, mkRR("zone.test.", typ, 1, i+1, "t.example"))
+		}
+		switch uint16(typ) {
+		case dns.TypeSOA, dns.TypeNSEC, dns.TypeNSEC3, dns.TypeRRSIG:
+			want = append(want, i)
+		}
+	}
+	out := resolver.VerifC01FilterAuthorityRecords(rrs)
+	var got []int
+	j := 0
+	for i, rr := range rrs {
+		if j < len(out) && out[j] == rr {
+			got = append(got, i)
+			j++
+		}
+	}
+	or := "ok"
+	if list(got, itoa) != list(want, itoa) || j != len(out) {
+		or = fail("authfilter/non-denial-record-kept-or-denial-record-dropped", "got=%s want=%s", list(got, itoa), list(want, itoa))
+	}
+	return vlib.Res{Impl: list(got, itoa), Oracle: or, Tags: "nt"}
+}
+
+func genAuthFilter(r *vlib.R) string {
+	n := 1 + r.Intn(6)
+	var l []string
+	for i := 0; i < n; i++ {
+		l = append(l, itoa(vlib.Pick(r, []int{6, 47, 50, 46, 2, 2, 1, 16, 43, 5, 39, 28})))
+	}
+	return "authfilter check R=" + strings.Join(l, ",")
+}
